@@ -58,7 +58,7 @@ PLANS = {
     'sexa7': lambda: free('16:._-', 7),
     'sexat': lambda: SEXA,
     # dates (10 characters) and date-times (templates)
-    'date10': lambda: [['1', '3', '-']] * 4 + [['-', '1']] + [['1', '3', '-']] * 2 + [['-', '1']] + [['1', '3', '-']] * 2,
+    'date10': lambda: [['1', '3', '-']] * 4 + [['-']] + [['1', '3', '-']] * 2 + [['-', '1']] + [['1', '3', '0']] * 2,
     'date10w': lambda: [['0', '1', '2', '9']] + [['0', '1', '3', '-']] * 3 + [['-', '1']] + [['0', '1', '3', '-']] * 2 + [['-', '1']] + [['0', '1', '3']] * 2,
     'ts': lambda: ts_template(False),
     'tsfull': lambda: ts_template(True),
